@@ -10,7 +10,7 @@ RULE = ('random histories of 2-5 connections over two permission tables: per-con
         'pause/resume-writing and clock ticks; non-trivial = at least one PUBLISH was delivered; distinct by event list. '
         'Compared with the Coq model on aspects %s; frame-normalised synchronous-store histories (one frame per read, or a read of several permitted frames) are '
         'also judged by harness/judge.py')
-PLAN = [(40, 800, dict(profile='mixed', chunking='bursts', reauth=0.06), True), (100, 2500, dict(profile='mixed'), False), (120, 2500, dict(profile='mixed', chunking='frames'), True), (40, 1000, dict(profile='hostile', chunking='frames'), True)]
+PLAN = [(40, 600, dict(scenario='reauth_stale'), True), (40, 800, dict(profile='mixed', chunking='bursts', reauth=0.06), True), (100, 2500, dict(profile='mixed'), False), (120, 2500, dict(profile='mixed', chunking='frames'), True), (40, 1000, dict(profile='hostile', chunking='frames'), True)]
 
 
 def run(ctx, res):
